@@ -77,8 +77,8 @@ TEXT = {
                    "and every accepted round keeps - a measurement of n rounds issues exactly one ping per round and ends with one report carrying the request id, "
                    "session UUID, wallet, n, and exactly the n distinct ping ids, each answered once), C18_refuse / C18_refuse_answered (unknown or already "
                    "answered ids are refused and change nothing), C18_restart_answers_abandoned (a measurement given up for a new one is answered, with CONFLICT, exactly when one was running - "
-                   "finding F37), C18_stats_consistent (0 <= min <= mean <= max, p95 and last within [min,max] for 3..50 rounds). Recorded, not repaired (KNOWN-FINDING F37b): a measurement in "
-                   "progress is lost, unanswered, when its participant switches sessions.",
+                   "finding F37), C18_stats_consistent (0 <= min <= mean <= max, p95 and last within [min,max] for 3..50 rounds). The same holds when the participant switches sessions while a measurement runs (finding F37b, "
+                   "Server.join delivers Session.abandoned first).",
              note=_std_note + " The ECDSA signature and Keccak-256 are outside the model: the harness verifies every report's signature against the server key. "
                   "Statistics are proved over natural-number microseconds; the tie to Go's code (float32 latencies, float64 sum since the repair F30) is the STAT correspondence: rounds below 2^24 us each, sums past it. "
                   "Ping ids come from the nanosecond clock: distinctness of issued ids is a hypothesis (hfresh) of C18_round.", technique=_tech),
@@ -117,7 +117,8 @@ TEXT = {
                    "nothing to its participants; ticks, the receipt consumer and new connections never touch a session), C03_history_frame (the same over any history), C03_local (a request's "
                    "deliveries and new session record are a function of the sender's own session record). Frame + locality are the unwinding conditions of noninterference; the trace-equivalence "
                    "form itself is proved at the level of handled requests: C03_noninterference (Props/C03Trace.lean) - from servers that agree on a session, what its members are sent along a "
-                   "history equals what they are sent along the history with every request that does not concern the session removed; hypotheses: no receipts (the shared queue of C19), a member "
+                   "history equals what they are sent along the history with every request that does not concern the session removed; hypotheses: no receipts (the shared queue of C19), no signed latency requests and no measurement running at the start (NoLat, an invariant of every other request: "
+                   "the answer to a measurement given up on a switch reaches a connection that is by then a member of the session it joins), a member "
                    "does not ask to join another session by its id (it may leave by disconnecting or by creating a session), one member only listens (the session does not end). The scheduler in front of the handlers (per-connection queues, frames) is not in that "
                    "statement; the same equivalence is measured on the real server, scheduler included, by re-running histories without the outsiders. "
                    "Under concurrency one clause is proved on a small model (Model/Relay.lean): C03_conc_no_relay_after_leaving - for every interleaving of relays, departures and answers, a connection is sent "
